@@ -970,6 +970,21 @@ pub fn replay_bb(v: &Value) -> Result<Option<CaseResult>, String> {
 }
 
 pub fn eval_c20_bb(case: &BbCase) -> CaseResult {
+    // a generated graph without any aggregate gets one: its last target becomes an aggregate
+    // over what it depended on (nothing refers to the last target)
+    let mut with_agg = case.clone();
+    if !with_agg.graph.targets.iter().any(|t| t.kind == Kind::Aggregate) {
+        if let Some(t) = with_agg.graph.targets.last_mut() {
+            t.kind = Kind::Aggregate;
+            let extra: Vec<usize> = t.outdeps.drain(..).collect();
+            for d in extra {
+                if !t.deps.contains(&d) {
+                    t.deps.push(d);
+                }
+            }
+        }
+    }
+    let case = &with_agg;
     let g = &case.graph;
     let mut res = CaseResult {
         sample: bb_summary(case),
